@@ -378,10 +378,25 @@ def main():
         if ok:
             cv = rf[0][1]
             body2 = nonempty(rf[0][3][1])
+            # auto seen = <expression>; if (... seen ...)   reads as the test on the expression itself
+            if (len(body2) == 2 and body2[0][0] == 'decl' and body2[0][1] in ('auto', 'const auto') and len(body2[0][2]) == 1 and body2[0][2][0][1] is not None
+                    and body2[1][0] == 'if' and not mc._mentions(body2[1][3:], body2[0][2][0][0])):
+                nm, init = body2[0][2][0]
+
+                def inl(n):
+                    if isinstance(n, list):
+                        return [inl(x) for x in n]
+                    if isinstance(n, tuple):
+                        return init if n == ('id', nm) else tuple(inl(x) for x in n)
+                    return n
+                body2 = [('if', body2[1][1], inl(body2[1][2]), body2[1][3], body2[1][4])]
             ok = len(body2) == 1 and body2[0][0] == 'if' and body2[0][4] is None
             if ok:
                 c = body2[0][2]
                 fresh = ((c[0] == 'call' and c[1] == ('id', 'std::none_of') and c[2][:2] == [rbeg, rend] and len(c[2]) == 3 and same_type_pred(c[2][2], cv))
+                         # std::find_if(records.begin(), records.end(), pred) == records.end()   says the same
+                         or (c[0] == 'bin' and c[1] == '==' and c[3] == rend and c[2][0] == 'call' and c[2][1] == ('id', 'std::find_if') and len(c[2][2]) == 3
+                             and c[2][2][:2] == [rbeg, rend] and same_type_pred(c[2][2][2], cv))
                          or (c[0] == 'un' and c[1] == '!' and c[2][0] == 'call' and c[2][1][0] == 'id' and c[2][1][1] in helpers and c[2][2] == [('id', cv)]))
                 ok = fresh and nonempty(body2[0][3][1]) == [('expr', ('call', ('member', ('id', 'records'), 'push_back', False), [('initlist', [('un', '&', ('id', cv))])]))]
         if not ok:
